@@ -594,10 +594,35 @@ func (g *genCtx) genTx() *txSpec {
 		s.calls = append(s.calls, c)
 		sys += callFee(c)
 	}
+	// class "re-entrant receiver": a Wallet contract that holds NEO is armed, votes (or changes / revokes its vote) --
+	// the callback of the GAS reward of that vote then transfers 1 NEO of the Wallet's own account away, from inside
+	// the reward payment -- and is disarmed
+	if r.Chance(1, 20) {
+		for _, wl := range w.wallets {
+			a := g.st.neo[wl]
+			if a == nil || a.bal.Cmp(big.NewInt(2)) < 0 || g.st.blocked[wl] {
+				continue
+			}
+			x := w.users[r.Intn(len(w.users))].ScriptHash()
+			var pub *keys.PublicKey
+			if r.Chance(3, 4) {
+				pub = g.pickPub(true)
+			}
+			wlc := wl
+			s.calls = []*call{
+				{kind: kArm, src: wlc, dst: x},
+				{kind: kVote, src: wlc, pub: pub, via: &wlc, nested: xferNeo(wlc, x, big.NewInt(1))},
+				{kind: kDisarm, src: wlc},
+			}
+			sys = 8 * gasUnit
+			s.reentrant = true
+			break
+		}
+	}
 	// class "a voting account's balance goes to exactly zero and back": a signer that votes sends away its ENTIRE
 	// NEO balance in one transfer or split over several, now and then gets it back in the same transaction and
 	// votes again
-	if r.Chance(1, 7) {
+	if !s.reentrant && r.Chance(1, 7) {
 		for _, h := range signers {
 			a := g.st.neo[h]
 			if a == nil || a.vote == nil || a.bal.Sign() <= 0 {
